@@ -16,7 +16,8 @@ static int ulen(const URI_CHAR *s, int max) { int i; for (i = 0; i < max; i++) i
 static int starts(const URI_CHAR *s, const char *p) { int i; for (i = 0; p[i]; i++) if (s[i] != (URI_CHAR)p[i]) return 0; return 1; }
 
 static void body(int fromUnix) {
-	URI_CHAR name[VF + 1]; URI_CHAR *uri, *back; int n, i, r, absolute, unc, ucap, ul, bcap, bl, plen, ok;
+	URI_CHAR name[VF + 1]; URI_CHAR uri[UMAX + 1], back[UMAX + 1]; int n, i, r, absolute, unc, ucap, ul, bcap, bl, plen, ok;
+	ND_ARR(URI_CHAR, canary, UMAX + 1);
 	ND_ARR(URI_CHAR, nm, VF); ND(unsigned char, len); ND(unsigned char, gj);
 	__CPROVER_assume(len <= VF && gj < UMAX);
 	for (i = 0; i < VF; i++) { name[i] = (i < len) ? nm[i] : 0; __CPROVER_assume(!(i < len) || (nm[i] != 0
@@ -37,7 +38,8 @@ static void body(int fromUnix) {
 		else __CPROVER_assume(n == 0 || name[0] != _UT('\\'));
 	}
 	ucap = (absolute ? (fromUnix ? 7 : 8) : 0) + 3 * n + 1;                 /* the documented size, exactly */
-	uri = malloc((size_t)ucap * sizeof(URI_CHAR)); __CPROVER_assume(uri != NULL);
+	/* one fixed-size array; everything at and beyond the documented capacity is a canary that must survive the call */
+	for (i = 0; i <= UMAX; i++) { uri[i] = canary[i]; back[i] = canary[i]; }
 	VCOVER(absolute && n == VF, "absolute name of VF characters");
 	VCOVER(!absolute && n == VF, "relative name of VF characters");
 	VCOVER_END;
@@ -45,6 +47,8 @@ static void body(int fromUnix) {
 	VPOST("C18", r == URI_SUCCESS, "FilenameToUriString succeeds");
 	ul = ulen(uri, ucap);
 	VPOST("C18", ul < ucap, "FilenameToUriString: the URI string is NUL-terminated inside the documented buffer size");
+	ok = 1; for (i = 0; i <= UMAX; i++) if (i >= ucap && uri[i] != canary[i]) ok = 0;
+	VPOST("C18", ok, "FilenameToUriString writes nothing at or beyond the documented 7+3n+1 / 8+3n+1 / 3n+1 characters");
 	plen = absolute ? (fromUnix ? 7 : (unc ? 5 : 8)) : 0;
 	VPOST("C18", !absolute || (fromUnix ? starts(uri, "file:///") : (unc ? (starts(uri, "file://") && uri[7] != _UT('/')) : starts(uri, "file:///"))),
 		"FilenameToUriString: absolute names give file:///x, file:///C:/x resp. file://server/share");
@@ -53,13 +57,19 @@ static void body(int fromUnix) {
 	ok = (gj >= ul) || gj < plen || IS_UNRES(uri[gj]) || uri[gj] == _UT('/') || (uri[gj] == _UT('%') && gj + 2 < ul && IS_HEXUP(uri[gj + 1]) && IS_HEXUP(uri[gj + 2]))
 		|| (!fromUnix && absolute && !unc && gj == plen + 1 && uri[gj] == _UT(':'));
 	VPOST("C18", ok, "FilenameToUriString: the text is a valid RFC 3986 reference (path characters only, complete upper-case %XX triplets)");
+#ifdef V_TO_URI_ONLY
+	(void)bcap; (void)bl;
+	return;
+#endif
 	/* back */
 	bcap = ul + 1 - (absolute ? 5 : 0);                                     /* the documented size, exactly */
-	back = malloc((size_t)bcap * sizeof(URI_CHAR)); __CPROVER_assume(back != NULL);
+	__CPROVER_assume(ul < ucap);
 	r = fromUnix ? URI_FUNC(UriStringToUnixFilename)(uri, back) : URI_FUNC(UriStringToWindowsFilename)(uri, back);
 	VPOST("C18", r == URI_SUCCESS, "UriStringToFilename succeeds");
 	bl = ulen(back, bcap);
 	VPOST("C18", bl < bcap, "UriStringToFilename: the filename is NUL-terminated inside the documented buffer size");
+	ok = 1; for (i = 0; i <= UMAX; i++) if (i >= bcap && back[i] != canary[i]) ok = 0;
+	VPOST("C18", ok, "UriStringToFilename writes nothing at or beyond the documented len+1-5 / len+1 characters");
 	ok = (bl == n); for (i = 0; i < VF; i++) if (i < n && i < bl && back[i] != name[i]) ok = 0;
 	VPOST("C18", ok, "filename -> URI string -> filename returns the original filename");
 }
